@@ -42,7 +42,7 @@ impl Parser {
         let mut child_span = input.as_span();
 
         for (idx, child) in children.enumerate() {
-            if idx == expected_types.len() {
+            if idx >= expected_types.len() {
                 if idx == 0 {
                     return Err(vec![new_err(
                         child_span,
@@ -51,7 +51,10 @@ impl Parser {
                             .to_owned(),
                     )]);
                 }
-                break;
+                // a surplus argument: count it, so that the arity check below reports it
+                child_span = child.as_span();
+                result_len += 1;
+                continue;
             }
 
             child_span = child.as_span();
